@@ -537,6 +537,7 @@ pub fn grapheme_text(r: &mut Rng, max_units: usize) -> String {
     const UNITS: &[&str] = &[
         "a", "Z", "7", "９", "あ", "カ", "ｶ", "漢", "𠮷", "。", " ", "\r", "\n", "\r\n", "e\u{301}", "か\u{3099}", "👨\u{200d}👩\u{200d}👧",
         "🇯🇵", "🇺", "\u{200d}", "\u{301}", "🏳\u{fe0f}\u{200d}🌈", "각", "\u{1100}\u{1161}\u{11a8}", "👍🏽", "\u{600}a", "ก\u{e33}",
+        "ｶ\u{ff9e}", "ﾊ\u{ff9f}", "a\u{ff9e}", "漢\u{ff9f}",
     ];
     let n = r.range(1, max_units as i64) as usize;
     (0..n).map(|_| *r.pick(UNITS)).collect()
@@ -613,6 +614,24 @@ pub fn gen_c15(out: &mut dyn Write, thorough: bool, seed: u64) {
                     writeln!(out, "S {first},{second},filter:lb,obs:TYBKG c15").unwrap();
                     let cl = cluster_lengths(text).iter().map(|x| x.to_string()).collect::<Vec<_>>().join(".");
                     writeln!(out, "S {first},{second},filter:gc:{cl},obs:TYBKG c15").unwrap();
+                }
+            }
+        }
+    }
+    // characters that HAVE a character type (not `Other`) and nevertheless continue a grapheme cluster — found by scanning the typed
+    // characters with the real segmentation crate (the half-width sound marks U+FF9E/U+FF9F at present) — behind one character of each type
+    {
+        use unicode_segmentation::UnicodeSegmentation;
+        let typed_ext: Vec<char> = (0x80u32..0x30000)
+            .filter_map(char::from_u32)
+            .filter(|&c| vaporetto::CharacterType::get_type(c) as u8 != 6 && format!("a{c}").graphemes(true).count() == 1)
+            .collect();
+        for &x in typed_ext.iter().take(if thorough { 64 } else { 16 }) {
+            for lead in ['1', 'a', 'あ', 'カ', 'ｶ', '漢', '。'] {
+                for (text, labs) in [(format!("{lead}{x}"), vec!["W", "U"]), (format!("{lead}{x}{lead}{x}"), vec!["WWW", "UWU"]), (format!("{x}{lead}{x}{x}"), vec!["WWW"])] {
+                    for l in labs {
+                        emit(out, &mut r, &text, l);
+                    }
                 }
             }
         }
